@@ -30,10 +30,11 @@ type tgObs struct {
 	Done    []string `json:"done"`
 	Refused []string `json:"refused"`
 	Closed  bool     `json:"closed"`
+	Closed2 bool     `json:"closed2"` // a second, overlapping Stop/Close has returned
 }
 
 func (o tgObs) String() string {
-	return fmt.Sprintf("live=%v done=%v refused=%v closed=%v", o.Live, o.Done, o.Refused, o.Closed)
+	return fmt.Sprintf("live=%v done=%v refused=%v closed=%v closed2=%v", o.Live, o.Done, o.Refused, o.Closed, o.Closed2)
 }
 
 type tgStep struct {
@@ -55,6 +56,7 @@ type tgTarget interface {
 	add(t string)  // a thread asks to join (outcome observed later)
 	done(t string) // the thread finishes
 	stop()         // Stop / Close is called (asynchronously)
+	stop2()        // Stop / Close is called a second time while the first call may still be waiting
 	observe() tgObs
 	cleanup() bool
 }
@@ -68,12 +70,13 @@ type tgDirect struct {
 	dones   map[string]func()
 	ctxs    map[string]context.Context
 	stopped chan struct{}
+	stopped2 chan struct{}
 	n       int
 	badCtx  string
 }
 
 func newTGDirect() *tgDirect {
-	return &tgDirect{tg: threadgroup.New(), state: map[string]string{}, dones: map[string]func(){}, ctxs: map[string]context.Context{}, stopped: make(chan struct{})}
+	return &tgDirect{tg: threadgroup.New(), state: map[string]string{}, dones: map[string]func(){}, ctxs: map[string]context.Context{}, stopped: make(chan struct{}), stopped2: make(chan struct{})}
 }
 
 func (d *tgDirect) add(t string) {
@@ -140,6 +143,10 @@ func (d *tgDirect) stop() {
 	}
 }
 
+func (d *tgDirect) stop2() {
+	go func() { d.tg.Stop(); close(d.stopped2) }()
+}
+
 func (d *tgDirect) observe() tgObs {
 	d.mu.Lock()
 	defer d.mu.Unlock()
@@ -160,6 +167,11 @@ func (d *tgDirect) observe() tgObs {
 	select {
 	case <-d.stopped:
 		o.Closed = true
+	default:
+	}
+	select {
+	case <-d.stopped2:
+		o.Closed2 = true
 	default:
 	}
 	if d.badCtx != "" {
@@ -275,6 +287,7 @@ type tgRHP4 struct {
 	w        *wallet.SingleAddressWallet
 	served   chan error
 	stopped  chan struct{}
+	stopped2 chan struct{}
 	stopOnce sync.Once
 
 	mu      sync.Mutex
@@ -296,7 +309,7 @@ func newTGRHP4() (*tgRHP4, error) {
 	hk := types.GeneratePrivateKey()
 	gs := &gateSettings{}
 	srv := rhp4.NewServer(hk, cm, testutil.NewEphemeralContractor(cm), w, gs, testutil.NewEphemeralSectorStore())
-	r := &tgRHP4{srv: srv, net: memnet.New(hk.PublicKey()), gs: gs, w: w, served: make(chan error, 1), stopped: make(chan struct{}),
+	r := &tgRHP4{srv: srv, net: memnet.New(hk.PublicKey()), gs: gs, w: w, served: make(chan error, 1), stopped: make(chan struct{}), stopped2: make(chan struct{}),
 		entryOf: map[string]int{}, result: map[string]string{}}
 	go func() { r.served <- srv.Serve(r.net, zap.NewNop()) }()
 	return r, nil
@@ -357,6 +370,10 @@ func (r *tgRHP4) stop() {
 	r.stopOnce.Do(func() { go func() { r.srv.Close(); close(r.stopped) }() })
 }
 
+func (r *tgRHP4) stop2() {
+	go func() { r.srv.Close(); close(r.stopped2) }()
+}
+
 func (r *tgRHP4) observe() tgObs {
 	r.mu.Lock()
 	defer r.mu.Unlock()
@@ -382,6 +399,11 @@ func (r *tgRHP4) observe() tgObs {
 	select {
 	case <-r.stopped:
 		o.Closed = true
+	default:
+	}
+	select {
+	case <-r.stopped2:
+		o.Closed2 = true
 	default:
 	}
 	return o
@@ -440,6 +462,8 @@ func runTGPath(kind string, path []tgStep, res *hx.Result) (sig, desc string, at
 			tgt.done(st.Act.P)
 		case "StopBegin":
 			tgt.stop()
+		case "Stop2Begin":
+			tgt.stop2()
 		default:
 			return "infra", "unknown action " + st.Act.Op, i
 		}
@@ -456,6 +480,8 @@ func runTGPath(kind string, path []tgStep, res *hx.Result) (sig, desc string, at
 			switch {
 			case got.Closed && !st.Obs.Closed:
 				what = "stop-returned-early"
+			case got.Closed2 && !st.Obs.Closed2:
+				what = "second-stop-returned-early"
 			case !got.Closed && st.Obs.Closed:
 				what = "stop-not-returned"
 			case len(got.Live) > len(st.Obs.Live):
